@@ -138,7 +138,7 @@ func (vm *VM) run() (Addr, bool) {
 
 		// Addr
 		case OpAddr:
-			v := vm.general(a)
+			v := vm.arrayOfPointer(vm.general(a))
 			switch v.Kind() {
 			case reflect.Slice, reflect.Array:
 				i := int(vm.int(b))
@@ -942,7 +942,7 @@ func (vm *VM) run() (Addr, bool) {
 			// element returned by the indexing operation, so the implementation
 			// is the same as OpIndexRef and -OpIndexRef. This is going to
 			// change in a future commit.
-			v := vm.general(a)
+			v := vm.arrayOfPointer(vm.general(a))
 			i := int(vm.intk(b, op < 0))
 			vm.setFromReflectValue(c, v.Index(i))
 		case OpIndexString, -OpIndexString:
@@ -1752,7 +1752,7 @@ func (vm *VM) run() (Addr, bool) {
 					s[i] = nil
 				}
 			default:
-				v := sv.Index(int(i))
+				v := vm.arrayOfPointer(sv).Index(int(i))
 				vm.getIntoReflectValue(a, v, op < 0)
 			}
 
@@ -1822,7 +1822,7 @@ func (vm *VM) run() (Addr, bool) {
 		// Slice
 		case OpSlice:
 			var i1, i2, i3 int
-			s := vm.general(a)
+			s := vm.arrayOfPointer(vm.general(a))
 			next := vm.fn.Body[vm.pc]
 			i1 = int(vm.intk(next.A, b&1 != 0))
 			if k := b&2 != 0; k && next.B == -1 {
